@@ -19,6 +19,12 @@ def canon(obj, memo, depth=0):
     if isinstance(obj, (bytes, bytearray)):
         return 'bytes:%d' % len(obj)
     oid = id(obj)
+    if callable(obj) and hasattr(obj, 'cache_info') and hasattr(obj, '__wrapped__'):
+        # functools.lru_cache / cache wrappers: their content is state that survives a run (size only: keys are not exposed)
+        try:
+            return 'cached-fn:%s.%s:size=%d' % (getattr(obj, '__module__', '?'), getattr(obj, '__qualname__', '?'), obj.cache_info().currsize)
+        except Exception:   # noqa: BLE001
+            return 'cached-fn:%s' % getattr(obj, '__qualname__', '?')
     if isinstance(obj, (types.FunctionType, types.BuiltinFunctionType)):
         return 'fn:%s.%s' % (getattr(obj, '__module__', '?'), getattr(obj, '__qualname__', '?'))
     if isinstance(obj, types.MethodType):
